@@ -95,6 +95,15 @@ CORPUS = [
     ('gfa2', _adds(['S\tA\t10\t*', 'S\tB\t10\t*', 'F\tA\tr1+\t0\t3\t0\t3\t*', 'F\tA\tr1+\t0\t3\t0\t3\t*',
                     'E\t*\tA+\tB+\t7\t10$\t0\t3\t*', 'E\t*\tA+\tB+\t7\t10$\t0\t3\t*', 'G\t*\tA+\tB-\t5\t*', 'G\t*\tA+\tB-\t5\t*'])
      + [('rmlast', 'F\tA\tr1+\t0\t3\t0\t3\t*'), ('rmlast', 'E\t*\tA+\tB+\t7\t10$\t0\t3\t*'), ('rmlast', 'G\t*\tA+\tB-\t5\t*'), ('rm', 'A')]),
+    # two spellings of the same largest integer as identifiers: one of them goes (removed, renamed); an identifier handed
+    # out afterwards is still not in use
+    ('gfa1', _adds(['S\ta\t*', 'S\t7\t*', 'S\t07\t*', 'L\ta\t+\t7\t+\t*']) + [('rm', '07'), ('add', 'S\t007\t*'), ('rename', '007', 'x'), ('rm', '7')]),
+    ('gfa2', _adds(['S\t3\t10\t*', 'S\tb\t10\t*', 'E\t03\t3+\tb+\t7\t10$\t0\t3\t*'])
+     + [('rename', '03', 'e'), ('add', 'G\t003\t3+\tb-\t5\t*'), ('rm', '003'), ('add', 'U\t03\t3 b'), ('rename', '3', 'c')]),
+    # a gap named by groups before its G line arrives: the groups refer to the gap afterwards, not to the stand-in
+    # (the gap is not removed here: what a removed gap leaves in a set is the recorded finding F28)
+    ('gfa2', _adds(['S\tA\t5\t*', 'S\tB\t5\t*', 'U\tu\tA g', 'G\tg\tA+\tB+\t5\t*', 'U\tv\tg u']) + [('rename', 'A', 'n1'), ('rm', 'v')]),
+    ('gfa2', _adds(['U\tu\tA g', 'O\to\tA+ g+ B+', 'G\tg\tA+\tB+\t5\t*', 'S\tA\t5\t*', 'S\tB\t5\t*']) + [('rename', 'B', 'n2'), ('rm', 'u')]),
     # lines that arrive before the segments they mention, then a rename of such a segment
     ('gfa1', _adds(['C\tA\t+\tB\t+\t0\t*', 'L\tA\t+\tB\t-\t*', 'P\tp\tA+,B-\t*', 'S\tA\t*', 'S\tB\t*']) + [('rename', 'A', 'n1'), ('rename', 'B', 'n2')]),
     ('gfa1', _adds(['C\tA\t-\tB\t+\t2\t3M', 'S\tB\t*', 'S\tA\t*']) + [('rename', 'B', 'n1'), ('rm', 'A')]),
